@@ -9,7 +9,7 @@ use symcore::*;
 pub fn instances(tier: &str) -> Vec<String> {
     let mut v: Vec<String> = ["exp_ln", "exp_laws", "sqrt", "polar", "trig", "trig_quot", "hyp", "hyp_quot", "bridge", "log"].iter().map(|s| s.to_string()).collect();
     v.push("inv_closed_forms".into()); v.push("inv_asin".into()); v.push("inv_acos".into()); v.push("inv_right".into());
-    if tier == "thorough" { v.push("pow".into()); }
+    let _ = tier; v.push("pow".into());
     v
 }
 
@@ -251,6 +251,9 @@ pub fn body(inst: &str) {
             must("powf", || { assume(nonzero(zc)); (zc.powf(Sym::lit(2.0)), zc * zc) }, |(p, q)| ceq("z^2 via powf = z*z", p, q));
             // (z^w = exp(w ln z) for general w needs pow/exp/ln axioms beyond the instantiated ones: undecided, not claimed)
             must("powf(1)", || { assume(nonzero(zc)); zc.powf(one()) }, |p| ceq("z^1 via powf = z", p, zc));
+            // negative whole-number exponents: z^-1 z = 1, z^-2 z^2 = 1 (a reciprocal must be taken), and a real base stays real
+            must("powf(-1)", || { assume(nonzero(zc)); zc.powf(Sym::lit(-1.0)) }, |p| ceq("z^-1 via powf times z = 1", p * zc, cone));
+            must("powf(-2)", || { assume(nonzero(zc)); zc.powf(Sym::lit(-2.0)) }, |p| ceq("z^-2 via powf times z^2 = 1", p * (zc * zc), cone));
         }
         "inverse" => {
             must("asinh", || { let a = zc.asinh(); (a, a.sinh()) }, |(_a, s)| ceq("sinh(asinh z) = z", s, zc));
